@@ -290,6 +290,9 @@ type CaseC08 struct {
 	ReadFault int       `json:"read_fault"` // offset in the log, -1 none
 	SinkFail  int       `json:"sink_fail"`  // -1 none
 	Order     OrderPlan `json:"order"`
+	// StatLie: what Stat says about the size of the log and the book differs from what reading them delivers
+	// ("zero": a FIFO; "more": a file truncated after it was opened, a sysfs attribute; "less": a file still growing)
+	StatLie string `json:"stat_lie,omitempty"`
 }
 
 // MutC08 is one stored-data fault.
@@ -411,6 +414,7 @@ func genC08(thorough bool) func(t *rapid.T) Case {
 			c.SinkFail = rapid.SampledFrom([]int{0, 1, 7, 60, 150, 299, 4095, 4096, 4097, 8192, 12000}).Draw(t, "sink_fail")
 		}
 		c.Order = OrderPlan{Mode: rapid.SampledFrom([]string{"asc", "desc", "shuffle"}).Draw(t, "order"), Seed: rapid.Uint64().Draw(t, "order_seed")}
+		c.StatLie = rapid.SampledFrom([]string{"", "", "", "", "", "zero", "more", "less"}).Draw(t, "stat_lie")
 		return c
 	}
 }
@@ -471,6 +475,19 @@ func (c *CaseC08) Eval(ob *Obs) []Finding {
 	w.Files[bi].Data = applyMut(w.Files[bi].Data, c.BookMut)
 	w.Files[li].Data = applyMut(w.Files[li].Data, c.LogMut)
 	w.Order = c.Order
+	for _, i := range []int{bi, li} {
+		n := int64(len(w.Files[i].Data))
+		switch c.StatLie {
+		case "zero":
+			w.Files[i].StatSize = new(int64)
+		case "more":
+			n += 1 + n/2
+			w.Files[i].StatSize = &n
+		case "less":
+			n /= 2
+			w.Files[i].StatSize = &n
+		}
+	}
 	if c.ReadFault >= 0 {
 		w.Files[li].Plan.FaultAt = c.ReadFault
 		w.Files[li].Plan.FaultKind = "EIO"
